@@ -70,3 +70,24 @@ Definition c10_step_ok (size freq : N) (_ next : list N) (k : N) : bool :=
 
 Definition c10_ok (c : c10_case) : bool :=
   c10_walk (c10_step_ok (c10_size c) (c10_freq c)) [] 1 (c10_steps c).
+
+(* ---- the same with a configuration that changes at restarts: each step carries the size and the trigger in force ---- *)
+Record c10v_case := { c10v_steps : list (N * N * list N) }.
+Fixpoint c10v_walk (f : N -> N -> list N -> list N -> N -> bool) (prev : list N) (k : N) (steps : list (N * N * list N)) : bool :=
+  match steps with
+  | [] => true
+  | (size, freq, next) :: steps' => f size freq prev next k && c10v_walk f next (k + 1) steps'
+  end.
+Definition c10v_agree (c : c10v_case) : bool := c10v_walk c10_step_agree [] 1 (c10v_steps c).
+(* the property, step by step: the retained numbers stay contiguous up to k; nothing is discarded while fewer than
+   size newer updates exist (nothing at all when size = 0); when cleanup runs on every publication nothing older
+   remains; when it never runs nothing is discarded *)
+Definition c10v_step_ok (size freq : N) (prev next : list N) (k : N) : bool :=
+  let app := prev ++ [k] in
+  let recent s := N.eqb size 0 || N.ltb (k - size) s in
+  Ns_eqb next (nrange (k + 1 - N.of_nat (length next)) (length next)) &&
+  forallb (fun s => mem_N s app) next &&
+  forallb (fun s => negb (recent s) || mem_N s next) app &&
+  (negb (N.eqb freq 1) || forallb recent next) &&
+  (negb (N.eqb freq 0) || Ns_eqb next app).
+Definition c10v_ok (c : c10v_case) : bool := c10v_walk c10v_step_ok [] 1 (c10v_steps c).
